@@ -31,6 +31,18 @@ use tantivy::merge_policy::NoMergePolicy;
 use tantivy::{doc, Directory, Index, IndexWriter};
 
 pub const K_S2: &str = "C10:managed-json-rename-not-synced";
+pub const K_TEMP: &str = "C10:temp-docstore-relisted-by-delete-meta";
+
+/// Finding (sorted indexes): `SegmentMeta::with_delete_meta` builds a fresh
+/// `include_temp_doc_store = true`, so a freshly indexed segment that receives deletes before its
+/// first commit lists `<seg>.store.temp` as living again and the commit's GC keeps the file.
+/// Signature: every orphan is the `.store.temp` of a segment that has a delete file in meta.json.
+fn temp_relisted_signature(orphans: &[&String], expected: &BTreeSet<String>) -> bool {
+    !orphans.is_empty()
+        && orphans.iter().all(|o| {
+            o.ends_with(".store.temp") && o.len() > 32 && expected.iter().any(|e| e.ends_with(".del") && e.len() > 32 && e[..32] == o[..32])
+        })
+}
 
 const SEG_SUFFIXES: [&str; 0] = [];
 
@@ -113,7 +125,9 @@ fn check_quiescent(ctx: &mut Ctx, vdir: &VDir, index: &Index, what: &str, case: 
         ok = false;
         ctx.report.violation("oracle", "C10:needed-file-missing", format!("{what}: files referenced by meta.json do not exist: {missing:?}"), case.clone());
     }
-    if !orphans.is_empty() {
+    if temp_relisted_signature(&orphans, &expected) {
+        ctx.report.violation("oracle", K_TEMP, format!("{what}: temp doc stores of segments that have deletes remain after commit + GC: {orphans:?}"), case.clone());
+    } else if !orphans.is_empty() {
         ok = false;
         ctx.report.violation("oracle", "C10:orphan-files", format!("{what}: files that belong to no committed segment remain after GC: {orphans:?}"), case.clone());
     }
@@ -257,6 +271,7 @@ fn check_history(ctx: &mut Ctx, h: &Hist, force: Option<(u64, u64)>) {
     let hist_json = h.to_json();
     let case = json!({"kind": "history", "history": hist_json, "force": force.map(|(s, p)| vec![s, p])});
     let vdir = VDir::new();
+    vdir.with_state(|s| s.record_data = true);
     let fo = Arc::new(Forcer {
         index: Mutex::new(None),
         busy: AtomicBool::new(false),
@@ -273,7 +288,7 @@ fn check_history(ctx: &mut Ctx, h: &Hist, force: Option<(u64, u64)>) {
     });
     vdir.set_hook(Some(make_hook(fo.clone())));
     // quiescent points observed during the run (checked after, on snapshots taken here)
-    let merges_may_run = h.merge_policy || h.steps.iter().any(|s| matches!(s, Step::Merge { wait: false }));
+    let merges_may_run = h.merge_policy || h.steps.iter().any(|s| matches!(s, Step::Merge { wait: false } | Step::PolicyOn));
     let mut snapshots: Vec<(Point, BTreeSet<String>, Vec<u8>, Option<BTreeSet<String>>, BTreeSet<String>)> = vec![];
     let fo_obs = fo.clone();
     let vd = vdir.clone();
@@ -384,6 +399,32 @@ fn check_history(ctx: &mut Ctx, h: &Hist, force: Option<(u64, u64)>) {
     if let Some(e) = end_gc_err {
         ctx.report.violation("oracle", "C10:history-op-failed", format!("writer for the final collection: {e}"), case.clone());
     }
+    // registration-before-create at the storage level: when a managed-type file is created, the
+    // newest `.managed.json` already lists it
+    {
+        let mut newest: Option<HashSet<String>> = None;
+        let mut reported = false;
+        for r in &run.log {
+            if !r.ok {
+                continue;
+            }
+            if r.kind == OpKind::AtomicWrite && r.path == c01::MANAGED {
+                newest = r.data.as_ref().and_then(|b| serde_json::from_slice::<Vec<String>>(b).ok()).map(|v| v.into_iter().collect());
+            } else if r.kind == OpKind::OpenWrite && !is_dot(&r.path) {
+                ctx.report.count("open-write:checked-against-newest-managed-json");
+                let listed = newest.as_ref().map(|m| m.contains(&r.path)).unwrap_or(false);
+                if !listed && !reported {
+                    reported = true;
+                    ctx.report.violation("oracle", "C10:file-created-before-registered", format!("{} is created by {} (op #{}) although the newest .managed.json does not list it: a crash or I/O error right here leaves a file no ManagedDirectory will ever know", r.path, r.thread, r.seq), case.clone());
+                }
+            }
+        }
+    }
+    if h.sorted {
+        ctx.report.count("history:sorted-index");
+        let temps = run.log.iter().filter(|r| r.kind == OpKind::OpenWrite && r.path.ends_with(".store.temp")).count();
+        ctx.report.count_n("temp-docstore-files-created", temps as u64);
+    }
     // no open_read of a (non-lock) file failed during the run
     for r in &run.log {
         if r.kind == OpKind::OpenRead && !r.ok && !c01::is_lock_file(&r.path) {
@@ -399,6 +440,7 @@ fn check_history(ctx: &mut Ctx, h: &Hist, force: Option<(u64, u64)>) {
             Step::Merge { .. } => ctx.report.count("step:merge"),
             Step::Reopen { .. } => ctx.report.count("step:reopen"),
             Step::DeleteAll => ctx.report.count("step:delete-all"),
+            Step::PolicyOn => ctx.report.count("step:policy-on"),
             Step::Gc => ctx.report.count("step:gc"),
             Step::Commit => ctx.report.count("step:commit"),
             _ => {}
@@ -425,7 +467,9 @@ fn check_history(ctx: &mut Ctx, h: &Hist, force: Option<(u64, u64)>) {
             ok = false;
             ctx.report.violation("oracle", "C10:needed-file-missing", format!("{what}: files referenced by meta.json do not exist: {missing:?}"), case.clone());
         }
-        if !orphans.is_empty() {
+        if temp_relisted_signature(&orphans, &expected) {
+            ctx.report.violation("oracle", K_TEMP, format!("{what}: temp doc stores of segments that have deletes remain after commit + GC: {orphans:?}"), case.clone());
+        } else if !orphans.is_empty() {
             ok = false;
             let first = orphans[0].clone();
             let hist: Vec<String> = run.log.iter().filter(|r| r.path == first && r.kind != OpKind::Write).map(|r| format!("#{} {} {}", r.seq, r.thread, r.kind.name())).collect();
@@ -665,7 +709,7 @@ fn check_reader_window(ctx: &mut Ctx) {
 // E: recovered crash images + one commit + one collection
 // ------------------------------------------------------------------------------------------
 
-fn after_crash(files: &c01::Files) -> Result<(BTreeSet<String>, BTreeSet<String>), String> {
+fn after_crash(files: &c01::Files) -> Result<(BTreeSet<String>, BTreeSet<String>, BTreeSet<String>), String> {
     let ram = RamDirectory::create();
     for (n, b) in files {
         ram.atomic_write(Path::new(n), b).map_err(|e| e.to_string())?;
@@ -686,21 +730,33 @@ fn after_crash(files: &c01::Files) -> Result<(BTreeSet<String>, BTreeSet<String>
     let mut expected: BTreeSet<String> = refs.into_iter().collect();
     expected.insert(c01::META.into());
     expected.insert(c01::MANAGED.into());
-    Ok((d, expected))
+    let managed_after = managed_json(&vdir)?;
+    Ok((d, expected, managed_after))
 }
 
 fn check_after_crash(ctx: &mut Ctx) {
-    let h = Hist { threads: 1, merge_policy: false, cut_docs: 2, steps: vec![Step::Add(1), Step::Add(2), Step::Add(3), Step::Commit, Step::Add(4), Step::DelGrp(1), Step::Commit, Step::Add(5), Step::Rollback, Step::Add(6), Step::Commit] };
+    let h = Hist { threads: 1, merge_policy: false, cut_docs: 2, sorted: false, steps: vec![Step::Add(1), Step::Add(2), Step::Add(3), Step::Commit, Step::Add(4), Step::DelGrp(1), Step::Commit, Step::Add(5), Step::Rollback, Step::Add(6), Step::Commit] };
     let vdir = VDir::new();
     vdir.with_state(|s| s.record_data = true);
     let run = c01::run_history(&h, &vdir, &mut |_, _, _, _| {});
-    let trace = match c01::tokenize(&run) {
+    let trace = match c01::tokenize_opt(&run, true) {
         Ok(t) => t,
         Err(e) => {
             ctx.report.violation("model", "C10:trace-not-representable", e, json!({"kind":"after-crash"}));
             return;
         }
     };
+    // the real log satisfies R1-R3 of the model (registered before created, forgotten only after
+    // the unlink is durable): the hypothesis of C10_existing_files_are_managed
+    let reg = ctx.model.ask(&format!("C10 reg {}", trace.line()));
+    ctx.report.count(&format!("storage-discipline-R1-R3:{}", if reg == "ok" { "ok" } else { "violated" }));
+    if reg == "ok" {
+        ctx.report.traces_validated_against_impl += 1;
+    } else {
+        let i: usize = reg.parse().unwrap_or(0);
+        let op = trace.src.get(i).copied().flatten().map(|s| run.log[s].line()).unwrap_or_default();
+        ctx.report.violation("model", "C10:registration-discipline-violated", format!("token {i} ({}) [{op}] breaks R1-R3 (create before registration, or a path dropped from .managed.json before its unlink is durable)", trace.toks.get(i).cloned().unwrap_or_default()), json!({"kind":"after-crash"}));
+    }
     // boundaries right after a file creation (managed rename pending, create pending) and a few others
     let mut ks: Vec<usize> = (trace.base_tok + 1..=trace.toks.len()).filter(|k| trace.toks[k - 1].starts_with('c')).collect();
     let others: Vec<usize> = (trace.base_tok + 1..=trace.toks.len()).filter(|k| { let t = &trace.toks[k - 1]; t.starts_with('t') || t == "s" || t.starts_with('k') }).collect();
@@ -739,35 +795,126 @@ fn check_after_crash(ctx: &mut Ctx) {
                 continue;
             }
             evaluated += 1;
-            let managed_in_image: BTreeSet<String> = files.get(c01::MANAGED).and_then(|b| serde_json::from_slice::<Vec<String>>(b).ok()).map(|v| v.into_iter().collect()).unwrap_or_default();
-            let unmanaged_present: BTreeSet<String> = files.keys().filter(|n| !is_dot(n) && !managed_in_image.contains(*n)).cloned().collect();
-            let case = json!({"kind": "after-crash-image", "files": files.iter().map(|(k, v)| (k.clone(), serde_json::Value::String(crate::model::hex(v)))).collect::<serde_json::Map<_, _>>()});
+            let visible_managed: BTreeSet<String> = applied.as_ref().map(|a| c01::materialize(a, &trace, &run.log)).and_then(|f| f.get(c01::MANAGED).cloned())
+                .and_then(|b| serde_json::from_slice::<Vec<String>>(&b).ok()).map(|v| v.into_iter().collect()).unwrap_or_default();
             let desc = format!("{} {} at boundary {}", c01::kind_name(d.kind), trace.names.get(d.subject).cloned().unwrap_or_default(), b.k);
             ctx.report.case(&format!("crash|{canon}"), d.kind != 0);
             ctx.report.count(&format!("after-crash:image-kind:{}", c01::kind_name(d.kind)));
-            match catch_unwind(AssertUnwindSafe(|| after_crash(&files))) {
-                Ok(Ok((dir, expected))) => {
-                    let orphans: BTreeSet<String> = dir.difference(&expected).cloned().collect();
-                    let missing: Vec<&String> = expected.difference(&dir).collect();
-                    if !missing.is_empty() {
-                        ctx.report.violation("oracle", "C10:needed-file-missing-after-crash", format!("{desc}: {missing:?}"), case.clone());
-                    }
-                    if orphans.is_empty() {
-                        ctx.report.count(if unmanaged_present.is_empty() { "after-crash:clean (every existing file was listed in the image's .managed.json)" } else { "after-crash:clean" });
-                    } else if !unmanaged_present.is_empty() && orphans.iter().all(|o| unmanaged_present.contains(o)) {
-                        // S2 signature: the hypothesis of C10_after_crash_partial fails (a file
-                        // exists that the image's .managed.json does not list) and exactly those
-                        // files are what remains
-                        ctx.report.violation("oracle", K_S2, format!("{desc}: {orphans:?} exist in the crash image but not in its .managed.json (rename not synced, creation applied); they survive recovery + commit + GC"), case.clone());
-                    } else {
-                        ctx.report.violation("oracle", "C10:orphan-after-crash", format!("{desc}: orphans {orphans:?} (unmanaged in the image: {unmanaged_present:?})"), case.clone());
-                    }
-                }
-                Ok(Err(e)) => ctx.report.violation("oracle", "C10:recovery-failed", format!("{desc}: {e}"), case.clone()),
-                Err(_) => ctx.report.violation("oracle", "C10:recovery-failed", format!("{desc}: panic"), case.clone()),
-            }
+            judge_after_crash(ctx, &files, &visible_managed, &desc);
         }
     }
+}
+
+/// recovery + one commit + one collection on a crash image, and the verdict.
+/// `visible_managed` = what the newest `.managed.json` written before the crash point lists.
+/// Finding S2 (rename of `.managed.json` not synced) is exactly: a file survives that the
+/// NEWEST `.managed.json` did list but the image's (older) version does not. A surviving file
+/// that not even the newest `.managed.json` listed was created before it was registered.
+fn judge_after_crash(ctx: &mut Ctx, files: &c01::Files, visible_managed: &BTreeSet<String>, desc: &str) {
+    let managed_in_image: BTreeSet<String> = files.get(c01::MANAGED).and_then(|b| serde_json::from_slice::<Vec<String>>(b).ok()).map(|v| v.into_iter().collect()).unwrap_or_default();
+    let unmanaged_present: BTreeSet<String> = files.keys().filter(|n| !is_dot(n) && !managed_in_image.contains(*n)).cloned().collect();
+    let case = json!({"kind": "after-crash-image", "image": desc, "visible_managed": visible_managed.iter().cloned().collect::<Vec<_>>(),
+        "files": files.iter().map(|(k, v)| (k.clone(), serde_json::Value::String(crate::model::hex(v)))).collect::<serde_json::Map<_, _>>()});
+    match catch_unwind(AssertUnwindSafe(|| after_crash(files))) {
+        Ok(Ok((dir, expected, managed_after))) => {
+            let orphans: BTreeSet<String> = dir.difference(&expected).cloned().collect();
+            let missing: Vec<&String> = expected.difference(&dir).collect();
+            if !missing.is_empty() {
+                ctx.report.violation("oracle", "C10:needed-file-missing-after-crash", format!("{desc}: {missing:?}"), case.clone());
+            }
+            if orphans.is_empty() {
+                ctx.report.count(if unmanaged_present.is_empty() { "after-crash:clean (every existing file was listed in the image's .managed.json)" } else { "after-crash:clean" });
+                let existing: BTreeSet<String> = dir.iter().filter(|p| !is_dot(p)).cloned().collect();
+                if managed_after != existing {
+                    ctx.report.violation("oracle", "C10:managed-json-differs-after-crash", format!("{desc}: after recovery + commit + GC .managed.json = {managed_after:?} but the existing files are {existing:?}"), case.clone());
+                }
+            } else if orphans.iter().all(|o| unmanaged_present.contains(o) && visible_managed.contains(o)) {
+                ctx.report.violation("oracle", K_S2, format!("{desc}: {orphans:?} exist in the crash image, are listed by the newest .managed.json written before the crash but not by the image's version (rename not synced, creation applied); they survive recovery + commit + GC"), case.clone());
+            } else if orphans.iter().any(|o| !visible_managed.contains(o)) {
+                let bad: Vec<&String> = orphans.iter().filter(|o| !visible_managed.contains(*o)).collect();
+                ctx.report.violation("oracle", "C10:file-created-before-registered", format!("{desc}: {bad:?} exist although no .managed.json written before the crash point lists them; unmanaged forever: they survive recovery + commit + GC"), case.clone());
+            } else {
+                ctx.report.violation("oracle", "C10:orphan-after-crash", format!("{desc}: orphans {orphans:?} (unmanaged in the image: {unmanaged_present:?})"), case.clone());
+            }
+        }
+        Ok(Err(e)) => ctx.report.violation("oracle", "C10:recovery-failed", format!("{desc}: {e}"), case.clone()),
+        Err(_) => ctx.report.violation("oracle", "C10:recovery-failed", format!("{desc}: panic"), case.clone()),
+    }
+}
+
+// ------------------------------------------------------------------------------------------
+// F: I/O error on the atomic write of .managed.json during open_write, then recovery
+// ------------------------------------------------------------------------------------------
+
+fn managed_write_filter(k: OpKind, p: &str) -> bool {
+    k == OpKind::AtomicWrite && p == c01::MANAGED
+}
+
+/// Fail the `nth` atomic write of `.managed.json` (0 = the registration of meta.json at
+/// Index::create, never chosen) once, while a writer indexes and commits; whatever the writer
+/// reports, recover: a fresh process opens the directory (fresh ManagedDirectory reading the
+/// persisted `.managed.json`), commits once and collects once. The quiescent equalities must hold.
+fn check_managed_write_fault(ctx: &mut Ctx, nth: Option<u64>, cut_docs: u32, docs: u64) {
+    let nth = nth.unwrap_or(1);
+    let (schema, f) = c01::schema();
+    let vdir = VDir::new();
+    let case = json!({"kind": "managed-write-fault", "nth": nth, "cut_docs": cut_docs, "docs": docs});
+    let index = Index::create(vdir.clone(), schema, Default::default()).unwrap();
+    vdir.with_state(|s| {
+        s.fault_filter = Some(managed_write_filter);
+        s.fail_at = Some((nth, false));
+    });
+    tantivy::verif::set_segment_cut_docs(cut_docs);
+    let mut commit_failed = false;
+    {
+        let mut w: IndexWriter = index.writer_with_num_threads(1, 15_000_000).unwrap();
+        w.set_merge_policy(Box::new(NoMergePolicy));
+        for id in 1..=docs {
+            if w.add_document(doc!(f.id => id, f.grp => c01::grp_of(id), f.body => "managed fault")).is_err() {
+                break;
+            }
+        }
+        if w.commit().is_err() {
+            commit_failed = true;
+        }
+        drop(w);
+    }
+    tantivy::verif::set_segment_cut_docs(0);
+    let injected = vdir.with_state(|s| {
+        let n = s.faults_injected;
+        s.fail_at = None;
+        s.fault_filter = None;
+        n
+    });
+    drop(index);
+    ctx.report.case(&format!("managed-fault|{nth}|{cut_docs}|{docs}"), injected > 0);
+    ctx.report.count(if injected > 0 { "managed-write-fault:injected" } else { "managed-write-fault:position-not-reached" });
+    if commit_failed {
+        ctx.report.count("managed-write-fault:commit-reported-error");
+    }
+    // recovery by a fresh process
+    let index = match Index::open(vdir.clone()) {
+        Ok(i) => i,
+        Err(e) => {
+            ctx.report.violation("oracle", "C10:recovery-failed", format!("open after a failed .managed.json write: {e}"), case);
+            return;
+        }
+    };
+    let w: Result<IndexWriter, _> = index.writer_with_num_threads(1, 15_000_000);
+    let mut w = match w {
+        Ok(w) => w,
+        Err(e) => {
+            ctx.report.violation("oracle", "C10:recovery-failed", format!("writer after a failed .managed.json write: {e}"), case);
+            return;
+        }
+    };
+    w.set_merge_policy(Box::new(NoMergePolicy));
+    let r = w.add_document(doc!(f.id => 4242u64, f.grp => 0u64, f.body => "after fault")).map(|_| ()).and_then(|_| w.commit().map(|_| ())).and_then(|_| w.garbage_collect_files().wait().map(|_| ()));
+    if let Err(e) = r {
+        ctx.report.violation("oracle", "C10:recovery-failed", format!("add + commit + GC after a failed .managed.json write: {e}"), case.clone());
+    }
+    let _ = w.wait_merging_threads();
+    check_quiescent(ctx, &vdir, &index, &format!("after an I/O error on .managed.json write #{nth} + recovery + commit + GC"), &case);
 }
 
 fn replay(ctx: &mut Ctx, case: &serde_json::Value) {
@@ -785,18 +932,11 @@ fn replay(ctx: &mut Ctx, case: &serde_json::Value) {
                     files.insert(k.clone(), crate::model::unhex(v.as_str().unwrap_or("-")).unwrap_or_default());
                 }
             }
+            let vm: BTreeSet<String> = case["visible_managed"].as_array().map(|a| a.iter().filter_map(|s| s.as_str().map(String::from)).collect()).unwrap_or_default();
             ctx.report.case("replay", true);
-            match after_crash(&files) {
-                Ok((dir, expected)) => {
-                    let orphans: Vec<&String> = dir.difference(&expected).collect();
-                    ctx.report.notes.push(format!("replay: orphans {orphans:?}"));
-                    if !orphans.is_empty() {
-                        ctx.report.violation("oracle", K_S2, format!("orphans after recovery + commit + GC: {orphans:?}"), case.clone());
-                    }
-                }
-                Err(e) => ctx.report.violation("oracle", "C10:recovery-failed", e, case.clone()),
-            }
+            judge_after_crash(ctx, &files, &vm, case["image"].as_str().unwrap_or("replay"));
         }
+        "managed-write-fault" => check_managed_write_fault(ctx, case["nth"].as_u64(), case["cut_docs"].as_u64().unwrap_or(1) as u32, case["docs"].as_u64().unwrap_or(3)),
         "gc-vs-model" => check_gc_vs_model(ctx, case["fail_some"].as_bool().unwrap_or(false)),
         "reader-window" => check_reader_window(ctx),
         k => ctx.report.notes.push(format!("replay kind {k:?} unknown")),
@@ -815,16 +955,31 @@ pub fn run(ctx: &mut Ctx) {
         "one collection: real (directory, managed, deleted, failed) = model fullGC = model small-step run, incl. failing deletes".into(),
         "a reader holding META_LOCK keeps its segment files while merge + commit + GC run".into(),
         "recovered crash image + commit + GC: no orphan unless a file exists that the image's .managed.json lacks (S2)".into(),
+        "the real storage log satisfies R1-R3 (model regOK): registered before created, forgotten only after the unlink is durable".into(),
+        "an I/O error on any .managed.json write, then recovery + commit + GC: quiescent equalities hold".into(),
+        "sorted indexes (temp doc store): quiescent equalities hold (finding: temp store relisted by with_delete_meta)".into(),
     ];
     if let Some(case) = ctx.replay.clone() {
         replay(ctx, &case);
         return;
     }
     let thorough = ctx.thorough();
+    // corpus: sorted index (temp doc store), with and without deletes in the first transaction
+    // (the second is the stored witness of finding C10:temp-docstore-relisted-by-delete-meta)
+    for with_delete in [false, true] {
+        let mut steps = vec![Step::Add(1), Step::Add(2), Step::Add(3)];
+        if with_delete {
+            steps.push(Step::DelGrp(1));
+        }
+        steps.extend([Step::Commit, Step::Add(4), Step::Commit]);
+        let h = Hist { threads: 2, merge_policy: false, cut_docs: 2, sorted: true, steps };
+        check_history(ctx, &h, None);
+    }
     // A: plain histories
     for _ in 0..ctx.budget(100, 800) {
         let mut rng = ctx.rng.fork();
-        let h = c01::gen_hist(&mut rng, if thorough { 50 } else { 24 }, true);
+        let mut h = c01::gen_hist(&mut rng, if thorough { 50 } else { 24 }, true);
+        h.sorted = rng.chance(1, 3);
         check_history(ctx, &h, None);
     }
     // B: forced GC
@@ -834,6 +989,7 @@ pub fn run(ctx: &mut Ctx) {
         if i % 2 == 0 {
             h.cut_docs = 1; // back-to-back segments: new files appear while GC is gated
         }
+        h.sorted = rng.chance(1, 4);
         let stride = *rng.pick(&[3u64, 5, 7, 11, 17]);
         let phase = rng.below(stride);
         check_history(ctx, &h, Some((stride, phase)));
@@ -848,6 +1004,15 @@ pub fn run(ctx: &mut Ctx) {
     }
     // E
     guarded(ctx, "recovered crash images", check_after_crash);
+    // F: an I/O error on the atomic write of .managed.json while a file is being registered
+    for i in 0..ctx.budget(30, 200) {
+        let mut rng = ctx.rng.fork();
+        let cut = 1 + rng.below(2) as u32;
+        let docs = 2 + rng.below(3);
+        // the first registrations of a fresh segment are `.store` (or `.store.temp`), `.fast`, ...
+        let nth = if i % 3 == 0 { 1 + 6 * ((i / 3) % 3) } else { 1 + rng.below(6 * docs) };
+        guarded(ctx, "fault on .managed.json", |c| check_managed_write_fault(c, Some(nth), cut, docs));
+    }
 }
 
 /// a scenario whose own `unwrap`s hit an error of the code under test (or a panic of it) is a
